@@ -1,6 +1,6 @@
 (* C12 — link references resolve independently of position, case and spacing. *)
 From Coq Require Import ZArith List Bool Lia.
-From Verif Require Import PyStr Util UtilGen UtilProofs RefLinks RefLinksGen RefLinksProofs C18.
+From Verif Require Import PyStr Util UtilGen UtilProofs RefLinks RefLinksGen RefLinksProofs C18 Inline Block BlockProofs BlockRefs.
 Import ListNotations.
 
 Theorem C12_tie_skeletons : reflinks_skeletons_ok = true.
@@ -62,7 +62,26 @@ Example C12_example :
   lookup [d1; d2] [32; 102; 111; 111; 10] = Some d1 /\ lookup [d1; d2] [98; 97; 114] = None.
 Proof. vm_compute. split; reflexivity. Qed.
 
+(* in the block parser model (Model/Block.v, tied to parse_ref_link by skeleton + correspondence) a definition is
+   either ignored or appended under a key that is not yet in the table: an entry, once made, is never replaced *)
+Theorem C12_block_model_definitions_never_overwrite : forall C m st rf st2 rf2 np,
+  handle_ref_link C m st rf = Ok (st2, rf2, np) ->
+  rf2 = rf \/ exists k v, rf2 = rf ++ [(k, v)] /\ assoc_refs k rf = false.
+Proof. exact handle_ref_link_first_wins. Qed.
+
+(* and this holds through the whole block pass: whatever handler runs, at whatever nesting depth, inside quotes, list
+   items or interrupting blocks, a key that is defined keeps its definition - the first definition the parser meets
+   is the one all lookups of the inline pass see *)
+Theorem C12_block_model_first_definition_is_kept : forall C fuel rk m st rf st2 rf2 np k v,
+  bhandle C fuel rk m st rf = Ok (st2, rf2, np) -> ref_lookup k rf = Some v -> ref_lookup k rf2 = Some v.
+Proof. intros C fuel rk m st rf st2 rf2 np k v H. apply rext_lookup_stable. exact (bhandle_refs C fuel _ _ _ _ _ _ _ H). Qed.
+
+Theorem C12_block_model_table_grows_by_first_definitions : forall C s toks rf, block_parse C s = Ok (toks, rf) -> rext [] rf.
+Proof. exact block_parse_refs. Qed.
+
 Print Assumptions C12_first_definition_wins.
 Print Assumptions C12_case_insensitive.
 Print Assumptions C12_whitespace_insensitive.
 Print Assumptions C12_undefined_stays_literal.
+Print Assumptions C12_block_model_definitions_never_overwrite.
+Print Assumptions C12_block_model_first_definition_is_kept.
